@@ -69,11 +69,15 @@ def fam_bytes(nmax=8):
                                Field(3, 'optional', ('struct', LEAFD, True))])
     S5 = StructDef('By_unk', [Field(1, 'default', S('i8')), Field(300, 'required', S('i16'))], has_unknown=True)
     S6 = StructDef('By_enum', [Field(1, 'default', S('enum')), Field(2, 'default', S('double')), Field(3, 'default', ('map', S('enum'), S('double')))])
+    S7 = StructDef('By_small', [Field(1, 'default', ('list', S('bool'))), Field(2, 'default', ('set', S('i8'))), Field(3, 'optional', ('list', S('i8')))])
     # (By_scalars at N = 12 exceeded the 200000-path budget in a measured run: capped at 11)
-    return [{'sd': s, 'kinds': ['bytes'], 'params': {'bytes': [x for x in ns if not (s.name == 'By_scalars' and x['N'] > 11)]}} for s in (S1, S2, S3, S4, S5, S6)]
+    return [{'sd': s, 'kinds': ['bytes'], 'params': {'bytes': [x for x in ns if not (s.name == 'By_scalars' and x['N'] > 11)]}} for s in (S1, S2, S3, S4, S5, S6, S7)]
 
-def pair(w, t, orders=3, reach=None, hop=False):
+def pair(w, t, orders=3, reach=None, hop=False, dup=False):
     d = {'w': w, 't': t, 'kinds': ['decmsg'] + (['hop'] if hop else []), 'params': {'decmsg': [{'orders': orders}]}}
+    if dup:
+        # a second variant in which every struct of the message repeats one of its scalar fields (same id sent twice)
+        d['params']['decmsg'].append({'orders': 1, 'dup': 1})
     if reach:
         d['reach'] = reach
     return d
@@ -89,7 +93,7 @@ def fam_evolve(orders=3):
     retyped = StructDef('EvRetyped', [Field(1, 'default', S('i64')), Field(2, 'default', S('binary')), Field(3, 'default', ('set', S('i16'))),
                                       Field(4, 'default', ('map', S('i8'), S('i8'))), Field(5, 'default', ('struct', LEAF, True)), Field(6, 'default', S('i64'))], has_unknown=True)
     renum = StructDef('EvRenum', [Field(11, 'default', S('i32')), Field(12, 'default', S('string')), Field(260, 'default', ('list', S('i16')))], has_unknown=True)
-    out = [pair(W1, same, orders), pair(W1, minus, orders), pair(W1, minusH, orders, hop=True), pair(W1, plus, orders), pair(W1, retyped, orders, hop=True), pair(W1, renum, orders, hop=True)]
+    out = [pair(W1, same, orders, dup=True), pair(W1, minus, orders), pair(W1, minusH, orders, hop=True, dup=True), pair(W1, plus, orders), pair(W1, retyped, orders, hop=True, dup=True), pair(W1, renum, orders, hop=True)]
     # alternating known / unknown fields: several separate runs of unknown fields of equal and unequal sizes
     wa = StructDef('EvAltW', [Field(1, 'default', S('i32')), Field(2, 'default', S('string')), Field(3, 'default', S('i64')), Field(4, 'default', S('i32')),
                               Field(5, 'default', S('string')), Field(6, 'default', S('i8')), Field(7, 'default', S('i32')), Field(8, 'default', S('i16'))])
@@ -113,13 +117,13 @@ def fam_required():
     for name, ids in (('RqLo', [0, 1, 63, 64, 65, 127]), ('RqHi', [128, 255, 256, 32767, 32768, 65534])):
         w = StructDef(name + 'W', [Field(i, 'optional', S('i8'), ptr=True, name='F%d' % i) for i in ids])
         t = StructDef(name + 'T', [Field(i, 'required', S('i8'), name='F%d' % i) for i in ids])
-        out.append(pair(w, t, 2, reach=['end', 'ok', 'missing']))
+        out.append(pair(w, t, 2, reach=['end', 'ok', 'missing'], dup=True))
     # required field with the wrong wire type does not count; nested required inside list / map / struct
     wi = StructDef('RqInW', [Field(1, 'optional', S('i32'), ptr=True), Field(2, 'optional', S('string'), ptr=True)])
     ti = StructDef('RqInT', [Field(1, 'required', S('i32')), Field(2, 'required', S('string'))])
     ww = StructDef('RqNestW', [Field(1, 'default', ('list', ('struct', wi, True))), Field(2, 'default', ('map', S('i8'), ('struct', wi, True))), Field(3, 'optional', ('struct', wi, True))])
     tt = StructDef('RqNestT', [Field(1, 'default', ('list', ('struct', ti, True))), Field(2, 'default', ('map', S('i8'), ('struct', ti, False))), Field(3, 'optional', ('struct', ti, True))])
-    out.append(pair(ww, tt, 2, reach=['end', 'ok', 'missing']))
+    out.append(pair(ww, tt, 2, reach=['end', 'ok', 'missing'], dup=True))
     # an outer struct lacking a required field while a nested struct (with required fields of its own) carries the same id
     for n, mk in enumerate([lambda w, t: (('struct', w, True), ('struct', t, True)),
                             lambda w, t: (('list', ('struct', w, True)), ('list', ('struct', t, False))),
@@ -129,7 +133,7 @@ def fam_required():
         tw, tt = mk(iw, it)
         ow_ = StructDef('RqShW%d' % n, [Field(1, 'optional', S('i8'), ptr=True), Field(2, 'optional', S('string'), ptr=True, name='Name'), Field(5, 'default', tw)])
         ot_ = StructDef('RqShT%d' % n, [Field(1, 'required', S('i8')), Field(2, 'required', S('string'), name='Name'), Field(5, 'default', tt)])
-        out.append(pair(ow_, ot_, 3, reach=['end', 'ok', 'missing']))
+        out.append(pair(ow_, ot_, 3, reach=['end', 'ok', 'missing'], dup=True))
     wr = StructDef('RqTypeW', [Field(1, 'optional', S('i64'), ptr=True), Field(2, 'default', S('i8'))])
     tr = StructDef('RqTypeT', [Field(1, 'required', S('i32')), Field(2, 'default', S('i8'))])
     out.append(pair(wr, tr, 2, reach=['end', 'missing']))
@@ -240,7 +244,8 @@ def fam_dec2():
     ps = [None, {'slen': 255, 'llen': 3}, {'slen': 7, 'llen': 33}, {'slen': 2040, 'llen': 1}]
     out = []
     for (x, y) in ((a, a), (a, b), (b, a)):
-        out.append({'w': x, 't': y, 'kinds': ['dec2'], 'params': {'dec2': ps if x is a and y is a else [None]}})
+        # fail=k: a FAILING decode (message 1 truncated: 1 = STOP missing, 2 = cut in the middle) sits between the two
+        out.append({'w': x, 't': y, 'kinds': ['dec2'], 'params': {'dec2': (ps + [{'fail': 1, 'slen': 7, 'llen': 2}] if x is a and y is a else [None]) + [{'fail': 1}, {'fail': 2}]}})
     return out
 
 def fam_hist():
@@ -294,6 +299,7 @@ def fam_mutmsg(full=False):
                           Field(5, 'default', ('struct', LEAF, True))], has_unknown=True),
         StructDef('MuE', [Field(1, 'default', ('map', ('struct', LEAF, True), ('list', i32))), Field(2, 'default', ('list', ('map', i8, i8)))]),
         StructDef('MuF', [Field(1, 'default', st, nocopy=True), Field(2, 'default', S('binary'), nocopy=True), Field(3, 'default', ('map', S('enum'), S('i16')))]),
+        StructDef('MuG', [Field(1, 'default', ('list', i8)), Field(2, 'default', ('set', S('bool')))]),
     ]
     out = []
     def add(w, t, muts):
@@ -301,7 +307,7 @@ def fam_mutmsg(full=False):
             out.append({'w': w, 't': t, 'kinds': ['mutmsg'], 'params': {'mutmsg': [{'mut': mu}]}, 'reach': ['end', ['cut', 'byte', 'word'][mu]]})
     unk = StructDef('MuSkip', [Field(900, 'default', i8)], has_unknown=True)
     for k, sd in enumerate(types):
-        add(sd, sd, [0, 1, 2] if (full or k == 0) else [0])
+        add(sd, sd, [0, 1, 2] if (full or k == 0) else ([0, 2] if sd.name == 'MuG' else [0]))
     # a reader that does not know the writer's fields: everything goes through the unknown-field skipper
     for k, sd in enumerate(types[:5]):
         # (thorough: the byte/word corruption variants of MuC and MuD through the skipper did not finish within 3000 s in
